@@ -284,6 +284,11 @@ let monitor_events (events : event list) : Model.event list =
 
 let handle (case : string) (out : string) : unit =
   incr n_cases;
+  (* every timing clause is stated in bit times: the code's rate table must be the standard one
+     (theorem C01_standard_baud_rates; Model/StdRates.v is hand-written, not regenerated) *)
+  if not rates_standard_ok then
+    List.iter (fun pr -> report_fail pr "standard_baud_rates" case "Baudrate::to_rate differs from the standard bit rates")
+      ["C01"; "C06"; "C11"; "C12"; "C13"];
   let sections = List.map String.trim (String.split_on_char '/' case) in
   let header, rest = (match sections with h :: r -> (split_ws h, r) | [] -> raise (Bad "empty case")) in
   let p, _seed = (match header with
